@@ -162,3 +162,147 @@ void h_do_insert_update(void)
     __CPROVER_assert(!r || (k1.has && k1.val == value && k1.exp == expire_time && (G_g == key || SAME(g0, g1)) && USED(self) == used0 + (k0.has ? 0 : 1)), "U ut_map do_insert_update: a successful write stores value and deadline, keeps the rest [C01 C03 C04 C05 C09]");
     __CPROVER_assert(0, "vacuity sentinel");
 }
+
+/* ================= public single-key methods: lock; now; do_prune; helper; unlock =================
+ * The purge loop do_prune is not within route U (its loop erases map entries and then a list range: the state inside
+ * the loop is not wf).  The calls of do_prune are REPLACED BY ITS CONTRACT (goto-instrument --replace-calls
+ * ut_map__do_prune:ut_map__do_prune_contract): the contract is the one route B enforces on do_prune at bounded sizes
+ * (contracts/ut_map.spec: wf, frame, "all and only the entries with deadline <= now leave", count), here an ASSUMED
+ * contract of a function of the repository -- listed as such in the evidence.  The post-state of the contract lives
+ * in a second set of unbounded arrays (B_*): the stub re-binds the pool pointers to them (their initial content is
+ * arbitrary = havoc) and assumes the contract's postcondition at the instance list. */
+static ut_map__R_node       B_kv[__CPROVER_constant_infinity_uint];
+static bool                 B_ralive[__CPROVER_constant_infinity_uint];
+static cstl_iter            B_idx[__CPROVER_constant_infinity_uint];
+static cstl_iter            B_next[__CPROVER_constant_infinity_uint], B_prev[__CPROVER_constant_infinity_uint], B_owner[__CPROVER_constant_infinity_uint];
+static ut_map__ttl_element  B_val[__CPROVER_constant_infinity_uint];
+static bool                 B_alive[__CPROVER_constant_infinity_uint], B_sent[__CPROVER_constant_infinity_uint];
+static uint64_t             B_pos0[__CPROVER_constant_infinity_uint];
+ut_map   SA;       /* ghost: the state before the purge (scalars and the pointers to the A arrays) */
+uint64_t G_key;    /* ghost: the key the public method operates on */
+bool     PRUNED;   /* ghost: the contract was used exactly once */
+
+#define P_HAS(c, k, now) (u_has((c), (k)) && u_exp((c), (k)) > (now))
+/* the contract's "all and only" clause at key k: the view after is the purged view before */
+#define PRUNE_REL(k, now) __CPROVER_assume(u_has(self, (k)) == P_HAS(&SA, (k), (now)) && (!u_has(self, (k)) || (u_val(self, (k)) == u_val(&SA, (k)) && u_exp(self, (k)) == u_exp(&SA, (k)))))
+
+uint64_t ut_map__do_prune_contract(ut_map *self, cstl_tp now)
+{
+    __CPROVER_assert(self->m_lock.m_lock.held, "U ut_map purge contract: the caller holds the lock [C06 C07]");
+    __CPROVER_assert(!PRUNED, "model bound: one purge per call");
+    PRUNED = true;
+    SA = *self;
+    /* havoc: everything the function may assign (assigns: the whole object = both containers and their nodes) */
+    self->P_L0.next = B_next; self->P_L0.prev = B_prev; self->P_L0.owner = B_owner; self->P_L0.val = B_val;
+    self->P_L0.alive = B_alive; self->P_L0.sent = B_sent; self->P_L0.pos0 = B_pos0; self->P_L0.nlog = 0;
+    self->P_R.kv = B_kv; self->P_R.alive = B_ralive; self->P_R.idx = B_idx;
+    self->m_ttl_list.head = nondet_u64(); self->m_ttl_list.size = nondet_u64(); self->m_keyed_elements.size = nondet_u64();
+    /* ensures wf, at the instances */
+    cstl_iter x = NODEOF_ENTRY(self->P_R.idx[G_key]);
+    cstl_iter nodes[] = {x, NX(x), PV(x)};
+    uint64_t  keys[] = {G_g, G_key};
+    u_assume_wf(self, nodes, 3, keys, 2);
+    /* ensures all_and_only, at the ghost key, the operated key and the keys of the instance nodes */
+    PRUNE_REL(G_g, now); PRUNE_REL(G_key, now); PRUNE_REL(G_k, now);
+    for (unsigned a = 0; a < 24; a++)
+        if (a < NALL && u_node(self, ALL[a]))
+        {
+            uint64_t k = self->P_R.kv[ENTRYOF_NODE(ALL[a])].first;
+            PRUNE_REL(k, now);
+            /* the caller's precondition time_ok ("no stored deadline is after now + ttl"), instantiated at the node that
+             * held k before the purge, and wf of the pre-state at that key */
+            __CPROVER_assume(u_inv_key(&SA, k) && u_inv_entry(&SA, SA.P_R.idx[k]) && u_inv_node(&SA, SA.P_R.kv[SA.P_R.idx[k]].second.m_ttl_position));
+            __CPROVER_assume(!u_has(&SA, k) || u_exp(&SA, k) <= now + cstl_ms_to_ns(G_MS));
+        }
+    /* ensures count */
+    __CPROVER_assume(USED(self) <= USED(&SA));
+    /* ensures frame */
+    __CPROVER_assert(self->m_uniform_ttl == SA.m_uniform_ttl && self->m_lock.m_lock.held, "spec sanity: the stub keeps the frame");
+    return USED(&SA) - USED(self);
+}
+
+/* preconditions on time of the public operations, as contracts/ut_base.h time_ok: the uniform TTL is the one duration
+ * converted (G_MS), 0 <= ttl, now + ttl representable; steady_clock is monotone and the TTL constant, so no stored
+ * deadline is after now + ttl (instantiated in the stub at the nodes that matter) */
+#define TIME_OK() __CPROVER_assume(self->m_uniform_ttl == G_MS && G_MS >= 0 && G_MS <= INT64_MAX / 1000000 && G_NOW >= 0 && G_NOW <= INT64_MAX - cstl_ms_to_ns(G_MS))
+#define PUB_PRE(k)                                                     \
+    ut_map *self = u_bind();                                           \
+    PRUNED = false; G_key = (k);                                       \
+    __CPROVER_assume(!self->m_lock.m_lock.held);                       \
+    {                                                                  \
+        cstl_iter x0 = NODEOF_ENTRY(self->P_R.idx[(k)]);               \
+        cstl_iter nodes0[] = {x0, NX(x0), PV(x0)};                     \
+        uint64_t  keys0[] = {G_g, (k)};                                \
+        u_assume_wf(self, nodes0, 3, keys0, 2);                        \
+    }                                                                  \
+    TIME_OK();                                                         \
+    cstl_ms ttl0 = self->m_uniform_ttl; uint64_t acq0 = self->m_lock.m_lock.acq; bool held0 = false; \
+    uint64_t usedA = USED(self);                                       \
+    uvw gA = u_view(self, G_g), kA = u_view(self, (k));                \
+    bool g_live = gA.has && gA.exp > G_NOW, k_live = kA.has && kA.exp > G_NOW
+/* purged view equality: b is the view after, a the view before the call */
+#define PURGED_SAME(a, alive, b) ((b).has == (alive) && (!(b).has || ((b).val == (a).val && (b).exp == (a).exp)))
+#define PUB_POST(fn)                                                                                                    \
+    __CPROVER_assert(PRUNED, "spec sanity: the purge contract was used");                                               \
+    __CPROVER_assert(u_inv0(self), "U " fn ": wf scalars (both containers have the same size, sentinel) [C01 C02 C03 C08]");   \
+    __CPROVER_assert(u_inv_node(self, G_i), "U " fn ": wf ttl-node clause at an arbitrary node [C01 C02 C03 C08 C17]");         \
+    __CPROVER_assert(u_inv_pair(self, G_i, G_j), "U " fn ": wf ranks injective and ttl list sorted by deadline at an arbitrary pair [C02 C04 C08 C17]"); \
+    __CPROVER_assert(u_inv_entry(self, G_e), "U " fn ": wf map-entry clause at an arbitrary entry [C01 C02 C03 C08]");          \
+    __CPROVER_assert(u_inv_key(self, G_k), "U " fn ": wf key clause at an arbitrary key [C01]");                                \
+    __CPROVER_assert(self->m_uniform_ttl == ttl0 && !self->m_lock.m_lock.held && self->m_lock.m_lock.acq == acq0 + 1, "U " fn ": frame (configured TTL; the lock was taken once and released) [C05 C06 C07]")
+
+void h_insert(void)
+{
+    uint64_t key, value, a;
+    PUB_PRE(key);
+    __CPROVER_assume(a >= 1 && a <= 3);
+    bool r = ut_map__insert(self, key, value, a);
+    uvw  g1 = u_view(self, G_g), k1 = u_view(self, key);
+    PUB_POST("ut_map insert");
+    __CPROVER_assert(r == (k_live ? (a & 2) != 0 : (a & 1) != 0), "U ut_map insert: result obeys the allow mode; an expired entry counts as absent [C04 C09]");
+    __CPROVER_assert(r || (PURGED_SAME(gA, g_live, g1) && PURGED_SAME(kA, k_live, k1)), "U ut_map insert: a rejected call only purges [C03 C04 C09 C17 C19]");
+    __CPROVER_assert(!r || (k1.has && k1.val == value && k1.exp == G_NOW + cstl_ms_to_ns(G_MS) && (G_g == key || PURGED_SAME(gA, g_live, g1))), "U ut_map insert: a successful write stores the value with deadline now + ttl; every other live key kept [C01 C03 C04 C05 C09 C17]");
+    __CPROVER_assert(USED(self) <= usedA + 1, "U ut_map insert: at most one entry more [C02]");
+    __CPROVER_assert(!(G_MS > 0) || !g1.has || g1.exp > G_NOW, "U ut_map insert: with a positive TTL every stored entry is live afterwards [C02 C04]");
+    __CPROVER_assert(0, "vacuity sentinel");
+}
+
+void h_erase(void)
+{
+    uint64_t key;
+    PUB_PRE(key);
+    bool r = ut_map__erase(self, key);
+    uvw  g1 = u_view(self, G_g), k1 = u_view(self, key);
+    PUB_POST("ut_map erase");
+    __CPROVER_assert(r == k_live, "U ut_map erase: reports whether a live entry was removed [C01 C03 C04]");
+    __CPROVER_assert(!k1.has && (G_g == key || PURGED_SAME(gA, g_live, g1)), "U ut_map erase: the key is gone, every other live key kept [C01 C03 C17 C19]");
+    __CPROVER_assert(USED(self) <= usedA, "U ut_map erase: no entry more [C02]");
+    __CPROVER_assert(!g1.has || g1.exp > G_NOW, "U ut_map erase: every stored entry is live afterwards [C02 C04]");
+    __CPROVER_assert(0, "vacuity sentinel");
+}
+
+void h_find(void)
+{
+    uint64_t key;
+    PUB_PRE(key);
+    cstl_opt r = ut_map__find(self, key);
+    uvw  g1 = u_view(self, G_g), k1 = u_view(self, key);
+    PUB_POST("ut_map find");
+    __CPROVER_assert(r.has == k_live && (!r.has || r.v == kA.val), "U ut_map find: a live entry is served with its value, an expired or absent one is not [C01 C04 C05]");
+    __CPROVER_assert(PURGED_SAME(gA, g_live, g1) && PURGED_SAME(kA, k_live, k1), "U ut_map find: only purges [C03 C05 C17 C19]");
+    __CPROVER_assert(USED(self) <= usedA, "U ut_map find: no entry more [C02]");
+    __CPROVER_assert(!g1.has || g1.exp > G_NOW, "U ut_map find: every stored entry is live afterwards [C02 C04]");
+    __CPROVER_assert(0, "vacuity sentinel");
+}
+
+void h_clean_expired_values(void)
+{
+    uint64_t key;
+    PUB_PRE(key);
+    uint64_t r = ut_map__clean_expired_values(self);
+    uvw  g1 = u_view(self, G_g);
+    PUB_POST("ut_map clean_expired_values");
+    __CPROVER_assert(PURGED_SAME(gA, g_live, g1), "U ut_map clean_expired_values: all and only the expired entries leave [C03 C05 C17]");
+    __CPROVER_assert(USED(self) + r == usedA, "U ut_map clean_expired_values: reports the number removed [C02 C17]");
+    __CPROVER_assert(0, "vacuity sentinel");
+}
